@@ -379,6 +379,10 @@ def check_c13(pid, tier, t0, replay_key):
     findings += f
     obl += o
     st.update(s2)
+    f, o, s, s2 = e7.rule_g3(P, tables)
+    findings += f
+    obl += o
+    st.update(s2)
     # recursion census restricted to the FEA front end
     reach = e3.entry_reach(P)
     f, o, s, s2 = e4.rule_x4(P, reach, tables, None)
@@ -400,7 +404,11 @@ def check_c13(pid, tier, t0, replay_key):
         "path, shows that the failing edge of most assertions/unwraps is infeasible (`assert!(parser.eat(K))` after a dispatch on K, the "
         "`debug_assert!(recovery.contains(..))` for every recovery set that reaches it, ...); constant-index bounds checks are evaluated; every "
         "other assertion, unwrap, index or arithmetic-overflow site is listed per (function, kind, count) in an audited table with the reason it cannot "
-        "fire, so a new panic site in the parser is a violation. (X6) The statement's last clause: in ParseContext::generate_parse_tree, IncludeGraph::validate dominates the "
+        "fire, so a new panic site in the parser is a violation. (G3) 'Error-free parse trees are accepted or rejected by validation without "
+        "panic', writer/reader agreement: third mode of the dataflow computes, for every node kind, the children the parser has emitted on every path that "
+        "reported no error when it finishes such a node; 71 typed-AST accessors that unwrap a child (reader table, generated from typed.rs and reviewed) are "
+        "checked against it; six are audited exceptions. This found five inputs that parse without error and panic in validation "
+        "(`pos cursive <anchor..> <anchor..>;`, `pos base|ligature|mark <anchor..> mark @m;`, `lookup ;;`, `sub a from;`), all repaired. (X6) The statement's last clause: in ParseContext::generate_parse_tree, IncludeGraph::validate dominates the "
         "recursive tree assembly, its rejected edges are handed to generate_recurse which recurses only for statements not rejected, and validate "
         "bounds the include depth by MAX_INCLUDE_DEPTH and keeps a seen set - cyclic or too-deep includes are reported instead of looping. (L1) A "
         "necessary condition of losslessness: exactly one function (AstSink::token) advances the sink's source cursor, slicing by the same length it "
